@@ -20,7 +20,7 @@ ASSUMPTIONS = ["str.isidentifier / keyword.iskeyword / unicodedata.normalize('NF
 
 CHUNK = 0x4000
 PREFIXES = ["field_", "f"]
-PAIR_NAMES = ["name", "+ab", "ab!", "a b", "a_b", "a-b", "a.b", "aB", "AB", "Ab", "ab", "A_B", "a__b", "_ab", "ab_", "1a", "_1a", "a1", "A1", "ﬁ", "fi",
+PAIR_NAMES = ["name", "client", "client_query", "client_header", "+ab", "ab!", "a b", "a_b", "a-b", "a.b", "aB", "AB", "Ab", "ab", "A_B", "a__b", "_ab", "ab_", "1a", "_1a", "a1", "A1", "ﬁ", "fi",
               "é", "É", "class", "Class", "class_", "list", "List", "self", "", "-", "_", "match", "type_", "type"]
 END2END = ["a²", "٣x", "x٣", "௰", "a௰", "ﱠ", "aﱠb", "·a", "a·", "℘", "ªb", "x́", "́x", "𝒳", "ǅ", "a‍b", "ß", "ſ", "İ", "ı",
            "a\ud800b", "\U000e0041", "Ⅷ", "a　b"]
@@ -35,12 +35,20 @@ def cases(tier):
         for scope in SCOPES:
             yield {"labels": [f"name={name!r}", f"scope={scope}"], "payload": {"mode": "single", "name": name, "scope": scope, "prefix": "field_"}}
     # (3) pairs per scope
-    names = PAIR_NAMES if tier == "thorough" else PAIR_NAMES[:28]
+    names = PAIR_NAMES if tier == "thorough" else PAIR_NAMES[:31]
     for a, b in itertools.combinations(names, 2):
         for scope in SCOPES:
             for prefix in (PREFIXES if tier == "thorough" or scope in ("attr", "query") else PREFIXES[:1]):
                 yield {"labels": [f"a={a!r}", f"b={b!r}", f"scope={scope}"] + ([f"field_prefix={prefix}"] if prefix != "field_" else []),
                        "payload": {"mode": "pair", "names": [a, b], "scope": scope, "prefix": prefix}}
+    # (4) a component and an inline class (property of another component) that derive the same class name
+    for holder in ("Pet", "pet", "A"):
+        for prop in ("status", "Status", "b"):
+            for joined in (holder + prop, holder + "_" + prop, (holder + prop).lower(), holder[0].upper() + holder[1:] + prop[0].upper() + prop[1:]):
+                for ckind, ikind in itertools.product(("object", "enum"), repeat=2):
+                    for first in ("component-first", "holder-first"):
+                        yield {"labels": [f"component={joined!r}", f"holder={holder!r}", f"prop={prop!r}", f"kinds={ckind}/{ikind}", first],
+                               "payload": {"mode": "inline-clash", "joined": joined, "holder": holder, "prop": prop, "ckind": ckind, "ikind": ikind, "first": first}}
     if tier == "thorough":
         for a, b, c in itertools.combinations(PAIR_NAMES[:16], 3):
             for scope in ("attr", "query", "schema"):
@@ -249,6 +257,46 @@ def diffclass(names):
     return "other"
 
 
+def _inline_clash(p):
+    mk = {"object": lambda tag: {"type": "object", "properties": {tag: {"type": "integer"}}}, "enum": lambda tag: {"type": "string", "enum": [tag + "1", tag + "2"]}}
+    comp = mk[p["ckind"]]("c")
+    holder = {"type": "object", "properties": {p["prop"]: mk[p["ikind"]]("i"), "n": {"type": "integer"}}}
+    comps = {p["joined"]: comp, p["holder"]: holder} if p["first"] == "component-first" else {p["holder"]: holder, p["joined"]: comp}
+    if p["joined"] == p["holder"]:
+        return {"outcome": "n/a", "nontrivial": False}
+    user = {"type": "object", "properties": {"c": {"$ref": "#/components/schemas/" + p["joined"]}, "h": {"$ref": "#/components/schemas/" + p["holder"]}}}
+    comps["UserOfBoth"] = user
+    res = gen.generate(gen.base_doc(comps))
+    if res.crash:
+        return {"skipped_crash": True, "outcome": f"crash:{res.crash['type']}@{res.crash['where']}", "nontrivial": False}
+    if res.rejected:
+        return {"outcome": "rejected", "nontrivial": True}
+    viol = []
+    key = f"inline-clash/{p['ckind']}+{p['ikind']}"
+    from checks.c01 import tree_violations
+    got = _scope_names("schema", res)
+    classes = got["classes"] if got else []
+    # 4 classes are described (component, holder, the holder's inline class, the user); fewer classes than that without a diagnostic is a silent merge
+    dc = diffclass([p["joined"], p["holder"] + "_" + p["prop"]])      # how the component's spelling differs from the inline class's derived name
+    if not res.diags and len(set(classes)) < 4:
+        viol.append({"oracle": "silent-merge", "site": "schema", "key": f"classes/merged/{dc}",
+                     "detail": f"component {p['joined']!r} ({p['ckind']}) and the inline {p['ikind']} {p['holder']}.{p['prop']} -> classes {sorted(classes)!r} and no diagnostic"})
+    if not res.diags and len(set(got["modules"])) < 4:
+        viol.append({"oracle": "silent-merge", "site": "schema", "key": f"modules/merged/{dc}",
+                     "detail": f"component {p['joined']!r} and the inline class of {p['holder']}.{p['prop']} -> modules {sorted(got['modules'])!r} and no diagnostic"})
+    if not viol:
+        for v in tree_violations(res, key):      # a broken package is the visible consequence of an unreported merge
+            if v["oracle"] in ("import", "closure"):
+                viol.append(dict(v, oracle="merge-breaks-package"))
+    seen, uniq = set(), []
+    for v in viol:
+        k = (v["oracle"], v["site"], v["key"])
+        if k not in seen:
+            seen.add(k)
+            uniq.append(v)
+    return {"violations": uniq, "outcome": "ok" if not uniq else "viol:" + ",".join(sorted({v['oracle'] for v in uniq})), "nontrivial": True, "steps": 2}
+
+
 def _e2e(p):
     from checks.c01 import norm_msg, role
     names = p["names"] if p["mode"] == "pair" else [p["name"]]
@@ -349,4 +397,6 @@ def _gen_default_dir(doc, prefix, cwd):
 def run_case(p):
     if p["mode"] == "sweep":
         return _sweep(p["lo"], p["hi"])
+    if p["mode"] == "inline-clash":
+        return _inline_clash(p)
     return _e2e(p)
